@@ -673,6 +673,8 @@ char* MemoryLeakDetector::allocMemory(TestMemoryAllocator* allocator, size_t siz
      * So, for malloc, we'll allocate the memory separately so we can detect this and give a proper error.
      */
 
+    if (sizeOfMemoryWithCorruptionInfo(size) + sizeof(MemoryLeakDetectorNode) < size) return NULLPTR; /* size_t overflow */
+
     char* memory = allocateMemoryWithAccountingInformation(allocator, size, file, line, allocatNodesSeperately);
     if (memory == NULLPTR) return NULLPTR;
     MemoryLeakDetectorNode* node = createMemoryLeakAccountingInformation(allocator, size, memory, allocatNodesSeperately);
@@ -728,6 +730,8 @@ char* MemoryLeakDetector::reallocMemory(TestMemoryAllocator* allocator, char* me
 #ifdef CPPUTEST_DISABLE_MEM_CORRUPTION_CHECK
    allocatNodesSeperately = true;
 #endif
+    if (sizeOfMemoryWithCorruptionInfo(size) + sizeof(MemoryLeakDetectorNode) < size) return NULLPTR; /* size_t overflow */
+
     if (memory) {
         MemoryLeakDetectorNode* node = memoryTable_.removeNode(memory);
         if (node == NULLPTR) {
